@@ -1,12 +1,17 @@
 import Xp.Model.C17
 import Xp.Proofs.C17Dag
+import Xp.Proofs.C17SortE
 import Xp.Proofs.C17Init
 import Xp.Proofs.C17Ver
 import Xp.Proofs.C17Res
 import Xp.Proofs.C17Env
 import Xp.Proofs.C17Rec
 import Xp.Proofs.C17ResF
+import Xp.Proofs.C17Glue
+import Xp.Proofs.C17Parents
 import Xp.Gen.C17Tables
+import Xp.Gen.C17Skel
+import Xp.Model.C17Skel
 /-
 C17 property theorems: dependency resolution.
 
@@ -87,6 +92,58 @@ theorem sort_ok_iff_acyclic {o : Oracle} {upg : Bool} {pkgs : List Pkg} {d : Dag
       cases he
       exact ⟨hnd, fun n => ⟨fun hn => (hks n).2 (hsub n hn), fun hn => hsup n ((hks n).1 hn)⟩,
         TopoRev.depsFirst _ inv.topo⟩
+
+/-- **Sort without any assumption on the identifiers** (the empty string included). Go's `visit`
+stores a finished node in the first slot of the pre-sized results slice that still holds "", so
+a node whose identifier is "" never occupies a slot (`finish`). For every lock, both DAG
+implementations and every iteration order of the node map:
+* Sort fails iff the dependency graph has a cycle, with the cycle error naming a node on a cycle
+  (the empty identifier does not disturb cycle detection);
+* on success there is a duplicate-free, dependencies-first order `full` of ALL nodes such that
+  the result is `full` with the empty identifier taken out and "" appended in its place: the
+  result still has one entry per node, but the empty identifier, if it is a node, is listed
+  last whatever depends on it (`sort_empty_identifier_listed_last_witness`);
+* if the empty string is not a node the result is `full` itself (`sort_ok_iff_acyclic`). -/
+theorem sort_any_identifier {o : Oracle} {upg : Bool} {pkgs : List Pkg} {d : Dag} {imp : List Dep}
+    (h : init o upg pkgs = .ok (d, imp)) (order : List String)
+    (hord : ∀ n, n ∈ order ↔ (lockNb pkgs n).isSome = true) :
+    ((∃ e, sort d order = .error e) ↔ HasCycle (lockNb pkgs)) ∧
+    (∀ e, sort d order = .error e → ∃ c, e = .cycle c ∧ Reach (lockNb pkgs) c c) ∧
+    (∀ res, sort d order = .ok res → ∃ full : List String,
+      full.Nodup ∧ (∀ n, n ∈ full ↔ (lockNb pkgs n).isSome = true) ∧ DepsFirst (lockNb pkgs) full ∧
+      res = noE full ++ List.replicate (full.length - (noE full).length) "" ∧
+      (lockNb pkgs "" = none → res = full)) := by
+  obtain ⟨hnb, hnodup, _, _⟩ := init_spec h
+  have nbeq : d.nb = lockNb pkgs := funext hnb
+  have hks : ∀ n, (lockNb pkgs n).isSome = true ↔ n ∈ d.keys := by
+    intro n; rw [← nbeq]; exact d.nb_isSome_iff n
+  have hlen : d.keys.length = d.length := by unfold Dag.keys; exact List.length_map ..
+  have spec := sortG_spec (lockNb pkgs) d.keys hks (lockNb_closed pkgs) hnodup order
+    (fun n => (hord n).trans (hks n))
+  unfold sort
+  rw [nbeq, ← hlen]
+  cases hs : sortG (lockNb pkgs) d.keys.length order with
+  | error e =>
+    rw [hs] at spec
+    obtain ⟨c, rfl, hc⟩ := spec
+    refine ⟨⟨fun _ => ⟨c, hc⟩, fun _ => ⟨_, rfl⟩⟩, ?_, ?_⟩
+    · intro e he; cases he; exact ⟨c, rfl, hc⟩
+    · intro res he; cases he
+  | ok res =>
+    rw [hs] at spec
+    obtain ⟨hac, full, hnd, hmem, hdf, hres⟩ := spec
+    refine ⟨⟨(fun ⟨e, he⟩ => by cases he), fun hc => absurd hc hac⟩, (fun e he => by cases he), ?_⟩
+    intro r he
+    cases he
+    refine ⟨full, hnd, fun n => (hmem n).trans (hks n).symm, hdf, hres, ?_⟩
+    intro hne
+    have hno : "" ∉ full := by
+      intro hm
+      have := (hks "").2 ((hmem "").1 hm)
+      rw [hne] at this
+      cases this
+    rw [hres, noE_eq_self hno]
+    simp
 
 /-! ### TraceNode: exactly the transitive closure -/
 
@@ -880,6 +937,19 @@ example : (match init o0 true dia with
     | .ok (d, _) => ((sort d ["c", "a", "d", "b"]).toOption, (trace d "a").toOption)
     | .error _ => (none, none)) = (some ["d", "c", "b", "a"], some ["c", "d", "b"]) := by decide
 
+
+/-- package a depends on a package whose identifier is the empty string (absent from the lock) -/
+def eLock : List Pkg := [⟨"pa", "a", "1.0.0", [⟨"", "*"⟩, ⟨"b", "*"⟩], false⟩]
+
+/-- the hypotheses of `sort_any_identifier` hold for a lock with the empty identifier, and there
+`a` depends on "" and on b, yet Sort lists "" after a: the empty identifier is not listed
+dependencies-first (while b is) -/
+theorem sort_empty_identifier_listed_last_witness :
+    (match init o0 false eLock with
+      | .ok (d, imp) => ((sort d ["a", "", "b"]).toOption, (sort d ["b", "", "a"]).toOption, imp.map (·.pkg))
+      | .error _ => (none, none, [])) = (some ["b", "a", ""], some ["b", "a", ""], ["", "b"]) ∧
+    lockNb eLock "a" = some ["", "b"] ∧ (lockNb eLock "").isSome = true := by decide
+
 /-- tags 1.0.0, 2.0.0-rc.1, 1.5.0, latest; constraint admits everything below 2.0.0 -/
 def o1 : Oracle :=
   { ver := fun t => match t with
@@ -1069,5 +1139,260 @@ theorem rec_name_taken_by_another_repository_is_an_error_witness :
 example : ∀ e : ErrClass, (runE recSem (scriptEnvW [(0, .err e)]) Plan.allOk 0 (reconcileP (cfgD false)) wq).2
     = some ⟨if e = .notFound then .none else .getLock e, false⟩ := by
   intro e; cases e <;> decide
+
+
+
+
+/-! ### finding (candidate): a later duplicate entry of one parent takes no part in the upgrade selection
+
+`LockPackage.AddNeighbors` hands the DAG node the constraint of the FIRST dependency entry with
+the neighbour's identifier (`neighborCons`, once per entry), while `isValidConstraints`
+(`validCon`) judges every entry by its own constraint. A parent that lists a package twice,
+the later entry violated, therefore makes the package "implied" (to be upgraded) but the
+selection sees the first constraint only: the package is "moved" to a version that violates a
+declared constraint although a tag admitted by every entry exists, and Reconcile reports
+Resolved=True — on every Reconcile. Monitor: C17:update-ignores-later-duplicate-constraint. -/
+
+def dupOracle : Oracle :=
+  { ver := fun t => match t with
+      | "1.0.0" => some ⟨1, 0, 0, []⟩ | "2.0.0" => some ⟨2, 0, 0, []⟩ | _ => none
+    conOk := fun c => c == ">=1.0.0" || c == ">=2.0.0"
+    sat := fun c t => (c == ">=1.0.0" && (t == "1.0.0" || t == "2.0.0")) || (c == ">=2.0.0" && t == "2.0.0")
+    digest := fun _ => none }
+
+/-- a depends on d twice: `>=1.0.0` and `>=2.0.0`; d is installed at 1.0.0 -/
+def dupLock : List Pkg :=
+  [⟨"pa", "a", "1.0.0", [⟨"d", ">=1.0.0"⟩, ⟨"d", ">=2.0.0"⟩], false⟩, ⟨"pd", "d", "1.0.0", [], false⟩]
+
+/-- the DAG node of d carries `>=1.0.0` twice and `>=2.0.0` not at all, while d is returned as
+implied because of `>=2.0.0`; on the tags 1.0.0 < 2.0.0 (in precedence order, what
+`sortTags (parseTags · )` yields) the selection for the installed 1.0.0 answers 1.0.0: the
+reconciler writes d = 1.0.0 again and reports success (`reconcile`: `.update "d" "1.0.0"`,
+observed on the real code, corpus/C17/duplicate_entry_upgrade.jsonl); 1.0.0 violates the declared
+`>=2.0.0`, 2.0.0 is admitted by both entries -/
+theorem update_satisfies_every_declared_constraint_fails_on_duplicate_entries_witness :
+    (match init dupOracle true dupLock with
+      | .ok (d, imp) => (parentsOf d "d", imp.map (·.con))
+      | .error _ => ([], [])) = ([">=1.0.0", ">=1.0.0"], [">=2.0.0"]) ∧
+    digestToUpdate dupOracle [">=1.0.0", ">=1.0.0"] = .ok "" ∧
+    pickUpdate (satAll dupOracle [">=1.0.0", ">=1.0.0"]) ⟨1, 0, 0, []⟩ false
+      [⟨"1.0.0", ⟨1, 0, 0, []⟩⟩, ⟨"2.0.0", ⟨2, 0, 0, []⟩⟩] none = some "1.0.0" ∧
+    dupOracle.sat ">=2.0.0" "1.0.0" = false ∧
+    satAll dupOracle [">=1.0.0", ">=2.0.0"] "2.0.0" = true :=
+  ⟨by decide, rfl, by decide, by decide, by decide⟩
+
+/-! ### the parent constraints of the upgrading DAG, in terms of the lock -/
+
+/-- **What "every parent's constraint" is, for every lock.** After MapUpgradingDag.Init the
+ParentConstraints of the node of a lock package `x` are `lockParents pkgs x`: one contribution
+per dependency entry pointing at `x`, in lock order, each the constraint of the FIRST entry of
+its parent for `x` (LockPackage.AddNeighbors). As a set: exactly the constraints of the first
+entry for `x` of every lock package that depends on `x`. -/
+theorem upgrade_parents_of_lock_package {o : Oracle} {pkgs : List Pkg} {d : Dag} {imp : List Dep}
+    (h : init o true pkgs = .ok (d, imp)) (x : String) (hx : x ∈ pkgs.map (·.source)) :
+    parentsOf d x = lockParents pkgs x ∧
+    ∀ c, c ∈ parentsOf d x ↔ ∃ p ∈ pkgs, ∃ e, p.deps.find? (fun e => e.pkg == x) = some e ∧ e.con = c := by
+  have hp := init_parents h x hx
+  refine ⟨hp, ?_⟩
+  intro c
+  rw [hp]
+  unfold lockParents
+  simp only [List.mem_flatMap, List.mem_filter]
+  constructor
+  · rintro ⟨p, hpm, e0, ⟨he0, hb⟩, hc⟩
+    unfold neighborCons pkgNode at hc
+    simp only [if_true] at hc
+    cases hf : p.deps.find? (fun e => e.pkg == x) with
+    | none => rw [hf] at hc; cases hc
+    | some e =>
+      rw [hf] at hc
+      simp only [List.mem_singleton] at hc
+      exact ⟨p, hpm, e, hf, hc.symm⟩
+  · rintro ⟨p, hpm, e, hf, rfl⟩
+    refine ⟨p, hpm, e, ⟨List.mem_of_find?_eq_some hf, by simpa using List.find?_some hf⟩, ?_⟩
+    unfold neighborCons pkgNode
+    simp only [if_true, hf, List.mem_singleton]
+
+/-- ... hence the version an installed dependency is moved to (no digest pinned) satisfies the
+first entry for it of EVERY lock package that depends on it — and only the first entries: the
+later entries of a parent that lists it twice take no part
+(`update_satisfies_every_declared_constraint_fails_on_duplicate_entries_witness`). -/
+theorem update_satisfies_first_entry_of_every_parent {o : Oracle} {pkgs : List Pkg} {d : Dag} {imp : List Dep}
+    (hi : init o true pkgs = .ok (d, imp)) (x : String) (hx : x ∈ pkgs.map (·.source))
+    (installed : String) (down : Bool) (tags : List String) (cur : Ver) (r : String)
+    (hdg : digestToUpdate o (parentsOf d x) = .ok "") (hcur : o.ver installed = some cur)
+    (h : toUpdate o (parentsOf d x) installed down (some tags) = .ok r) :
+    r ∈ tags ∧ ∀ p ∈ pkgs, ∀ e, p.deps.find? (fun e => e.pkg == x) = some e → o.sat e.con r = true := by
+  obtain ⟨hr, hs, _⟩ := update_min_not_older_or_max_older o _ installed down tags cur r hdg hcur h
+  refine ⟨hr, ?_⟩
+  intro p hp e he
+  have hm : e.con ∈ parentsOf d x := ((upgrade_parents_of_lock_package hi x hx).2 e.con).2 ⟨p, hp, e, he, rfl⟩
+  unfold satAll at hs
+  exact (List.all_eq_true.1 hs) e.con hm
+
+example : (match init dupOracle true dupLock with
+    | .ok (d, _) => parentsOf d "d" | .error _ => []) = lockParents dupLock "d" ∧ "d" ∈ dupLock.map (·.source) := by decide
+
+
+/-! ### the repository's glue: meta dependsOn ↦ lock dependencies ↦ package objects
+
+`metaToLock` / `metaDepsToLock` mirror the switch at the top of PackageDependencyManager.Resolve,
+`selfEntry` the lock entry it records, `parseSource` xpkg.ParsePackageSourceFromReference,
+`depKind` / `newPackage` the switch of resolver.NewPackage / NewPackageList (constants regenerated
+into Xp.Gen.C17Tables); compared with the real code on the `glue` scenarios. -/
+
+/-- **Every declared constraint is recorded.** When Resolve accepts a package's dependsOn list,
+the lock entry holds exactly one dependency per declared entry, in the declared order, each the
+conversion of its own entry and carrying its own version constraint: nothing is merged, dropped
+or de-duplicated (a package declared twice keeps both constraints, and `checkDeps` checks both). -/
+theorem declared_constraints_all_recorded (ms : List MetaDep) (ds : List LockDep)
+    (h : metaDepsToLock ms = some ds) :
+    ms.map metaToLock = ds.map some ∧ ds.length = ms.length ∧ ds.map (·.con) = ms.map (·.version) := by
+  have hm := metaDepsToLock_map ms ds h
+  have hl : ds.length = ms.length := by
+    have := congrArg List.length hm
+    simpa using this.symm
+  refine ⟨hm, hl, ?_⟩
+  clear hl h
+  induction ms generalizing ds with
+  | nil => cases ds with
+    | nil => rfl
+    | cons _ _ => simp at hm
+  | cons m ms ih =>
+    cases ds with
+    | nil => simp at hm
+    | cons d ds =>
+      simp only [List.map_cons, List.cons.injEq] at hm ⊢
+      exact ⟨metaToLock_con hm.1, ih ds hm.2⟩
+
+example : metaDepsToLock [⟨none, none, none, some "xpkg.io/o/a", none, none, ">=1.0.0"⟩,
+      ⟨some "pkg.crossplane.io/v1", some "Provider", some "xpkg.io/o/a", none, none, none, "<1.0.0"⟩] =
+    some [⟨"xpkg.io/o/a", none, none, some "Provider", ">=1.0.0"⟩,
+      ⟨"xpkg.io/o/a", some "pkg.crossplane.io/v1", some "Provider", none, "<1.0.0"⟩] := by decide
+
+/-- Resolve refuses the list ("encountered an invalid dependency") iff some entry names neither
+apiVersion + kind + package nor one of configuration / provider / function. -/
+theorem invalid_dependency_iff (ms : List MetaDep) :
+    metaDepsToLock ms = none ↔
+      ∃ m ∈ ms, (m.apiVersion = none ∨ m.kind = none ∨ m.pkg = none) ∧
+        m.configuration = none ∧ m.provider = none ∧ m.function = none := by
+  rw [metaDepsToLock_none_iff]
+  constructor
+  · rintro ⟨m, hm, h⟩
+    refine ⟨m, hm, ?_⟩
+    obtain ⟨a, k, p, pr, c, f, v⟩ := m
+    cases a <;> cases k <;> cases p <;> cases c <;> cases pr <;> cases f <;> simp [metaToLock] at h ⊢
+  · rintro ⟨m, hm, h1, h2, h3, h4⟩
+    refine ⟨m, hm, ?_⟩
+    obtain ⟨a, k, p, pr, c, f, v⟩ := m
+    simp only at h1 h2 h3 h4
+    subst h2 h3 h4
+    cases a <;> cases k <;> cases p <;> simp [metaToLock] at h1 ⊢
+
+example : metaDepsToLock [⟨some "pkg.crossplane.io/v1", some "Provider", none, none, none, none, "*"⟩] = none := by decide
+
+/-- **A recorded dependency can always be constructed, as the kind its entry declared.** For
+every dependency Resolve records, the switch of NewPackage / NewPackageList (over the kind table
+regenerated from the tree) finds an apiVersion and kind: the explicit ones when the entry gave
+apiVersion + kind + package, otherwise the package kind named by the deprecated field that was
+set (configuration before provider before function). -/
+theorem recorded_dependency_is_constructible (m : MetaDep) (d : LockDep) (h : metaToLock m = some d) :
+    ∃ a k, depKind Xp.Gen.c17KindTable d.fields = some (a, k) ∧
+      (d.type = none → some a = m.apiVersion ∧ some k = m.kind ∧ some d.pkg = m.pkg) ∧
+      (∀ t, d.type = some t → k = t ∧
+        ((t = "Configuration" ∧ some d.pkg = m.configuration) ∨
+         (t = "Provider" ∧ m.configuration = none ∧ some d.pkg = m.provider) ∨
+         (t = "Function" ∧ m.configuration = none ∧ m.provider = none ∧ some d.pkg = m.function))) := by
+  obtain ⟨a, k, p, pr, c, f, v⟩ := m
+  cases a <;> cases k <;> cases p <;> cases c <;> cases pr <;> cases f <;>
+    simp [metaToLock] at h <;> subst h <;>
+    simp [depKind, LockDep.fields, Xp.Gen.c17KindTable, Xp.Gen.c17TypeConfiguration, Xp.Gen.c17TypeProvider,
+      Xp.Gen.c17TypeFunction]
+
+example : newPackage Xp.Gen.c17KindTable ⟨none, none, some "Function"⟩ "v1.2.0" "xpkg.io/o/f" =
+    some ("pkg.crossplane.io/v1", "Function", "xpkg.io/o/f:v1.2.0") := by decide
+
+/-- xpkg.ParsePackageSourceFromReference, for every reference string: the digest is cut off
+first, then a tag (a ':' after the last '/'); a reference with neither is kept as it is, a
+registry port included; the result never carries a digest. -/
+theorem parse_source_spec :
+    (∀ repo tag : List Char, '@' ∉ repo → (∀ c ∈ tag, c ≠ ':' ∧ c ≠ '/' ∧ c ≠ '@') →
+      parseSourceL (repo ++ ':' :: tag) = repo) ∧
+    (∀ x dg : List Char, '@' ∉ x → parseSourceL (x ++ '@' :: dg) = parseSourceL x) ∧
+    (∀ s : List Char, '@' ∉ s → lastIdx ':' s ≤ lastIdx '/' s → parseSourceL s = s) ∧
+    (∀ s : List Char, '@' ∉ parseSourceL s) :=
+  ⟨parseSourceL_tag, parseSourceL_digest, parseSourceL_bare, parseSourceL_no_at⟩
+
+example : parseSource "localhost:5000/o/a:v1.0.0@sha256:aa" = "localhost:5000/o/a" ∧
+    parseSource "localhost:5000/a" = "localhost:5000/a" ∧ parseSource "a:1" = "a" := by decide
+
+/-- **The package created (or updated) for a dependency is a package of that dependency**: its
+revision records, as Source, the identifier the dependant declared — for every identifier `r`
+without tag and digest and every selected version `v` that is a digest or a tag. (So after the
+package manager has installed it the implied node is a lock package: the dependency is no
+longer missing, and the next Reconcile moves on.) -/
+theorem created_package_records_the_dependency_source (r v : List Char) (hr : '@' ∉ r)
+    (hb : lastIdx ':' r ≤ lastIdx '/' r)
+    (hv : "sha256:".toList.isPrefixOf v = true ∨ ∀ c ∈ v, c ≠ ':' ∧ c ≠ '/' ∧ c ≠ '@') :
+    parseSourceL (fmtImageL r v) = r := created_package_source r v hr hb hv
+
+example : parseSourceL (fmtImageL "reg.io:443/o/a".toList "v1.2.3".toList) = "reg.io:443/o/a".toList ∧
+    parseSourceL (fmtImageL "o/a".toList "sha256:ab".toList) = "o/a".toList := by decide
+
+/-- the hypotheses on the identifier are needed: an identifier that itself carries a tag, pinned
+to a digest, or one that carries a digest, yields a package whose source is not the identifier -/
+theorem created_package_source_fails_for_tagged_identifier_witness :
+    parseSourceL (fmtImageL "xpkg.io/o/a:v1".toList "sha256:ab".toList) ≠ "xpkg.io/o/a:v1".toList ∧
+    parseSourceL (fmtImageL "xpkg.io/o/a@sha256:ab".toList "v2".toList) ≠ "xpkg.io/o/a@sha256:ab".toList := by decide
+
+/-! ### regenerated call skeletons (tie "a")
+
+`Xp.Gen.c17Skel…` is extracted with go/ast from the current tree on every run
+(harness/main/c17_dump.go); `skel…` (Model/C17Skel.lean) is the skeleton the model's definitions
+mirror, entry by entry. MapDag and MapUpgradingDag share every method but AddEdge and
+AddOrUpdateNodes, hence one declared skeleton for both. -/
+
+theorem skeleton_dag_Init : Xp.Gen.c17SkelDagInit = skelInit := by decide
+theorem skeleton_upg_Init : Xp.Gen.c17SkelUpgInit = skelInit := by decide
+theorem skeleton_dag_AddNodes : Xp.Gen.c17SkelDagAddNodes = skelAddNodes := by decide
+theorem skeleton_upg_AddNodes : Xp.Gen.c17SkelUpgAddNodes = skelAddNodes := by decide
+theorem skeleton_dag_AddNode : Xp.Gen.c17SkelDagAddNode = skelAddNode := by decide
+theorem skeleton_upg_AddNode : Xp.Gen.c17SkelUpgAddNode = skelAddNode := by decide
+theorem skeleton_dag_AddOrUpdateNodes : Xp.Gen.c17SkelDagAddOrUpdateNodes = skelDagAddOrUpdateNodes := by decide
+theorem skeleton_upg_AddOrUpdateNodes : Xp.Gen.c17SkelUpgAddOrUpdateNodes = skelUpgAddOrUpdateNodes := by decide
+theorem skeleton_dag_NodeExists : Xp.Gen.c17SkelDagNodeExists = skelNodeExists := by decide
+theorem skeleton_upg_NodeExists : Xp.Gen.c17SkelUpgNodeExists = skelNodeExists := by decide
+theorem skeleton_dag_TraceNode : Xp.Gen.c17SkelDagTraceNode = skelTraceNode := by decide
+theorem skeleton_upg_TraceNode : Xp.Gen.c17SkelUpgTraceNode = skelTraceNode := by decide
+theorem skeleton_dag_traceNode : Xp.Gen.c17SkelDagTraceNodeRec = skelTraceNodeRec := by decide
+theorem skeleton_upg_traceNode : Xp.Gen.c17SkelUpgTraceNodeRec = skelTraceNodeRec := by decide
+theorem skeleton_dag_GetNode : Xp.Gen.c17SkelDagGetNode = skelGetNode := by decide
+theorem skeleton_upg_GetNode : Xp.Gen.c17SkelUpgGetNode = skelGetNode := by decide
+theorem skeleton_dag_AddEdges : Xp.Gen.c17SkelDagAddEdges = skelAddEdges := by decide
+theorem skeleton_upg_AddEdges : Xp.Gen.c17SkelUpgAddEdges = skelAddEdges := by decide
+theorem skeleton_dag_AddEdge : Xp.Gen.c17SkelDagAddEdge = skelDagAddEdge := by decide
+theorem skeleton_upg_AddEdge : Xp.Gen.c17SkelUpgAddEdge = skelUpgAddEdge := by decide
+theorem skeleton_dag_Sort : Xp.Gen.c17SkelDagSort = skelSort := by decide
+theorem skeleton_upg_Sort : Xp.Gen.c17SkelUpgSort = skelSort := by decide
+theorem skeleton_dag_visit : Xp.Gen.c17SkelDagVisit = skelVisit := by decide
+theorem skeleton_upg_visit : Xp.Gen.c17SkelUpgVisit = skelVisit := by decide
+theorem skeleton_isValidConstraints : Xp.Gen.c17SkelIsValidConstraints = skelIsValidConstraints := by decide
+theorem skeleton_ToNodes : Xp.Gen.c17SkelToNodes = skelToNodes := by decide
+theorem skeleton_LockPackage_Neighbors : Xp.Gen.c17SkelLockPackageNeighbors = skelLockPackageNeighbors := by decide
+theorem skeleton_Dependency_Neighbors : Xp.Gen.c17SkelDependencyNeighbors = skelDependencyNeighbors := by decide
+theorem skeleton_LockPackage_AddNeighbors : Xp.Gen.c17SkelLockPackageAddNeighbors = skelLockPackageAddNeighbors := by decide
+theorem skeleton_Dependency_AddNeighbors : Xp.Gen.c17SkelDependencyAddNeighbors = skelDependencyAddNeighbors := by decide
+theorem skeleton_LockPackage_AddParentConstraints : Xp.Gen.c17SkelLockPackageAddParentConstraints = skelAddParentConstraints := by decide
+theorem skeleton_Dependency_AddParentConstraints : Xp.Gen.c17SkelDependencyAddParentConstraints = skelAddParentConstraints := by decide
+theorem skeleton_Reconcile : Xp.Gen.c17SkelReconcile = skelReconcile := by decide
+theorem skeleton_findDependencyVersionToInstall : Xp.Gen.c17SkelFindInstall = skelFindInstall := by decide
+theorem skeleton_checkExistingPackage : Xp.Gen.c17SkelCheckExisting = skelCheckExisting := by decide
+theorem skeleton_findDependencyVersionToUpdate : Xp.Gen.c17SkelFindUpdate = skelFindUpdate := by decide
+theorem skeleton_findDigestToUpdate : Xp.Gen.c17SkelFindDigest = skelFindDigest := by decide
+theorem skeleton_NewPackage : Xp.Gen.c17SkelNewPackage = skelNewPackage := by decide
+theorem skeleton_NewPackageList : Xp.Gen.c17SkelNewPackageList = skelNewPackageList := by decide
+theorem skeleton_Resolve : Xp.Gen.c17SkelResolve = skelResolve := by decide
+theorem skeleton_RemoveSelf : Xp.Gen.c17SkelRemoveSelf = skelRemoveSelf := by decide
+theorem skeleton_ParsePackageSourceFromReference : Xp.Gen.c17SkelParseSource = skelParseSource := by decide
 
 end Xp.C17
